@@ -422,6 +422,7 @@ type progGen struct {
 	ctrl     bool // allow Controller registrations
 	maxMW    int  // max middleware per list
 	noGlobal bool // no top-level Use statements
+	optOnly  bool // some routes are dynamic without a variable: "/r3[.html]"
 	styles   bool // also register through Any / prepared NewRoute+Use+AddRoute / AttachTo
 
 	sharedMW  map[int][]*MW   // slice variables of the application that are passed to several groups
@@ -467,6 +468,8 @@ func (g *progGen) route0(probe bool) *RouteStmt {
 	rs.Path = fmt.Sprintf("/r%d", g.nRoute)
 	if g.dynamic && chance(g.r, 1, 3) {
 		rs.Path += "/{id}"
+	} else if g.optOnly && chance(g.r, 1, 4) {
+		rs.Path += "[.html]"
 	}
 	if chance(g.r, 1, 8) {
 		rs.Path = strings.TrimPrefix(rs.Path, "/") // registered without the leading slash
@@ -640,5 +643,8 @@ func GenProgram(r *rand.Rand, g *progGen) *Program {
 // RequestPath instantiates a route's full path.
 func (rs *RouteStmt) RequestPath(r *rand.Rand) string {
 	p := strings.ReplaceAll(rs.FullPath, "{id}", pick(r, []string{"1", "22", "abc"}))
+	if strings.Contains(p, "[.html]") {
+		p = strings.ReplaceAll(p, "[.html]", pick(r, []string{"", ".html"}))
+	}
 	return strings.ReplaceAll(p, "{gid}", pick(r, []string{"7", "red"}))
 }
